@@ -103,6 +103,10 @@ func c09Faults(d *Decl, args []string, ref *RefResult) []fault {
 		if intOpt != nil {
 			fs = append(fs, fault{"invalid value", insertAt(args, i, "--"+intOpt.NsLong+"=notanumber")})
 			fs = append(fs, fault{"out of range value", insertAt(args, i, "--"+intOpt.NsLong+"=99999999999999999999")})
+			if intOpt.Kind == KUint8 {
+				// fits 64 bits, not the field
+				fs = append(fs, fault{"value beyond the field's own range", insertAt(args, i, "--"+intOpt.NsLong+"=300")})
+			}
 		}
 		if choiceOpt != nil {
 			fs = append(fs, fault{"invalid choice", insertAt(args, i, "--"+choiceOpt.NsLong+"=\x01nochoice")})
